@@ -356,6 +356,10 @@ class Function:
         self.sig = j.get('sig')
         self.is_const = j.get('const', False)
         self.linkage = j.get('linkage')
+        self.is_lambda = bool(j.get('lambda'))
+        if self.is_lambda:
+            # the call operator of a local lambda: to the rules a file-local helper like any other (N-LAMBDA)
+            self.rec, self.recqn, self.linkage = None, None, 'static'
         self.nodes = {}
         self.body = Node(j['body'], self) if j.get('body') else None
         self._cfg = None
